@@ -2423,7 +2423,23 @@ setattr_trait(
             tnotifiers = traito->notifiers;
             onotifiers = obj->notifiers;
             if ((tnotifiers != NULL) || (onotifiers != NULL)) {
-                value = traito->getattr(traito, obj, name);
+                if (traitd != traito) {
+                    value = traito->getattr(traito, obj, name);
+                }
+                else {
+                    /* Store the default without announcing it: the
+                       notification below reports it as the new value.
+                       (Going through getattr_trait would announce it a
+                       first time as 'Uninitialized -> default', and
+                       observers that follow the value would hook it
+                       twice.) */
+                    value = default_value_for(traitd, obj, name);
+                    if ((value != NULL)
+                        && (PyDict_SetItem(dict, name, value) < 0)) {
+                        Py_DECREF(value);
+                        value = NULL;
+                    }
+                }
                 if (value == NULL) {
                     Py_DECREF(old_value);
                     return -1;
